@@ -118,8 +118,8 @@ def kfPrefixAccepted (W : World) (s : Entry W.Code) : Bool :=
   | l :: _ :: _ => match W.compile (text [l]) with | .ok _ => true | .error _ => false
   | _ => false
 
-/-- C20-K02: the first line of a multi-line statement is rejected as a syntax error instead of
-asking for more input (backslash-newline inside a single-quoted string literal). -/
+/-- (was C20-K02, repaired by fix d93e0e4: backslash-newline inside a single-quoted string literal; no instance is
+known any more) the first line of a multi-line statement is rejected as a syntax error instead of asking for more input. -/
 def kfPrefixRejected (W : World) (s : Entry W.Code) : Bool :=
   match s.lines with
   | l :: _ :: _ => match W.compile (text [l]) with | .ok _ => false | .error e => !needsMoreInput e
@@ -133,7 +133,7 @@ structure EntryOKPartial (W : World) (s : Entry W.Code) : Prop where
   blank_incomplete : ∀ done rest, done ≠ [] → s.lines = done ++ "" :: rest → isIncomplete (W.compile (text (done ++ [""]))) = true
   /-- excluded: C20-K01 -/
   not_K01 : kfPrefixAccepted W s = false
-  /-- excluded: C20-K02 -/
+  /-- excluded: first line rejected (the former C20-K02) -/
   not_K02 : kfPrefixRejected W s = false
 
 
@@ -155,20 +155,24 @@ def validSrcs {Code} (prog : List (Item Code)) : List String :=
 
 /-! ## Expression statements (sys.displayhook) -/
 
-/-- `sys.displayhook(value)`: None is ignored; otherwise `_` is set to None, the repr printed, `_` bound -/
-def displayhook (funs : List FunDef) (value : Val) (g : List (String × Val)) : List (String × Val) × List Out :=
+/-- `sys.displayhook(value)`: None is ignored; otherwise `_` is set to None, the repr printed, `_` bound; an exception
+raised by `repr(value)` propagates (then `_` stays None and nothing is printed) -/
+def displayhook (funs : List FunDef) (value : Val) (g : List (String × Val)) : List (String × Val) × List Out × Option String :=
   match value with
-  | .none => (g, [])
-  | v => (setVar (setVar g "_" .none) "_" v, [.echo (reprVal funs v)])
+  | .none => (g, [], none)
+  | v =>
+    match reprErr v with
+    | some c => (setVar g "_" .none, [], some c)
+    | none => (setVar (setVar g "_" .none) "_" v, [.echo (reprVal funs v)], none)
 
 /-- only expression statements of the interactive top-level code are displayed; inside a function
 body the value is discarded -/
 def specHook : ExprHook := fun nest funs v g =>
-  if nest == 0 then displayhook funs v g else (g, [])
+  if nest == 0 then displayhook funs v g else (g, [], none)
 
 def specRun (body : List Stmt) (ns : NS) : NS × List Out := runBody specHook fuelDefault body ns
 
 /-- executing the program as a FILE (exec mode): nothing is displayed; the first error aborts -/
-def fileHook : ExprHook := fun _ _ _ g => (g, [])
+def fileHook : ExprHook := fun _ _ _ g => (g, [], none)
 
 end GPy.C20
